@@ -7,4 +7,4 @@ Extraction "model.ml" drv_b2n drv_n2b drv_z_of_n drv_n_of_z drv_nat_of_n drv_n_o
   best_final_candidate attempt_to_finalize possible_selected_blocks total_votes threshold number
   known numbers_clean no_tie prevote_candidates hash_conflict
   spec_ghost spec_tolerant spec_supermajority spec_target msg_ok stored_ok precommit_ok finalise_ok
-  no_prevote_supermajority_guard depth ancb lca.
+  no_prevote_supermajority_guard depth ancb lca determine_prevote lookup.
